@@ -543,7 +543,7 @@ def run_check(tier, seed):
                     got = unit_out[n][r][ri]
                     if got != m:
                         tie_diffs.append(dict(stream='unit', file=c['path'], kind=c['kind'], chunk=ch, ranks=n, rank=r,
-                                              impl=got[:600], model=m[:600], hex=hx(c['data'])[:4000]))
+                                              impl=got[:600], model=m[:600], hex=hx(c['data'])[:200000]))
             if lean[(ci, 'W')] != m:
                 tie_diffs.append(dict(stream='model-chunk-vs-whole', file=c['path'], chunk=ch, whole=lean[(ci, 'W')][:600], chunked=m[:600]))
             xs = c['schema']['xsz'] if c['schema'] else len(c['data'])
@@ -595,7 +595,7 @@ def run_check(tier, seed):
         for sig, c, got, exp in prop_fail:
             s = c['schema']
             if V.failing_input('C04:' + sig.split(':')[0], 'a specification-valid file is not read back exactly (%s)' % sig,
-                               dict(how=sig, schema=' '.join(schema_tokens(s)), file_hex=hx(c['data'])[:20000], implementation=(got or '')[:3000],
+                               dict(how=sig, schema=' '.join(schema_tokens(s)), file_hex=hx(c['data'])[:200000], implementation=(got or '')[:3000],
                                     expected=str(exp or '')[:3000], harness='harness/c04_unit.c / harness/c04_api.c'), tag='in%d' % nfail):
                 nfail += 1
                 if nfail >= 5:
@@ -761,6 +761,62 @@ def api_mismatch(got, s, data):
     return None
 
 
+def replay_file(path):
+    """./check C04 --replay <replays/C04-*.json>: run the stored file(s) again through the unit harness
+    (every chunk size, 1 and 2 ranks), the public API and the Lean model, and print the comparison"""
+    obj = json.load(open(path))
+    files = []
+    r = obj.get('replay')
+    if isinstance(r, dict) and r.get('file_hex'):
+        files.append((unhx(r['file_hex']), r.get('schema')))
+    for dct in (obj.get('detail') if isinstance(obj.get('detail'), list) else []):
+        if isinstance(dct, dict) and dct.get('hex'):
+            files.append((unhx(dct['hex']), None))
+    if not files:
+        log('nothing to replay in', path)
+        return 2
+    tree = build_impl('plain')
+    wd = workdir('c04r')
+    try:
+        ok, out = lake_build(['c04drv'])
+        drv = os.path.join(LEAN, '.lake/build/bin/c04drv')
+        inc = ['-DHAVE_CONFIG_H', '-DPNC_MALLOC_TRACE', '-I' + os.path.join(tree, 'src/drivers/ncmpio'),
+               '-I' + os.path.join(tree, 'src/drivers/include'), '-I' + os.path.join(tree, 'src/include')]
+        unit = cc(tree, [os.path.join(VERIF, 'harness/c04_unit.c')], os.path.join(wd, 'c04_unit'), extra=inc)
+        api = cc(tree, [os.path.join(VERIF, 'harness/c04_api.c')], os.path.join(wd, 'c04_api'))
+        bad = 0
+        for k, (data, schema) in enumerate(files[:8]):
+            fpath = os.path.join(wd, 'r%d.nc' % k)
+            open(fpath, 'wb').write(data)
+            lean = lean_batch(drv, ['FILE ' + hx(data)] + ['DEC %d' % ch for ch in CHUNKS] + ['DEC W', 'SPEC'])
+            log('file %d: %d bytes; specification decoder: %s' % (k, len(data), lean[-1][:200]))
+            for n in (1, 2):
+                outs, note = run_harness(unit, n, ['%s %d 0' % (fpath, ch) for ch in CHUNKS], wd, 'ru%d' % n)
+                for i, ch in enumerate(CHUNKS):
+                    for rnk in range(n):
+                        same = outs[rnk][i] == lean[1 + i]
+                        bad += 0 if same else 1
+                        log('  chunk %-6d ranks %d rank %d: %s' % (ch, n, rnk, 'model = implementation' if same else
+                                                                 'DIFFER impl=%s model=%s' % (outs[rnk][i][:300], lean[1 + i][:300])))
+            outs, note = run_harness(api, 1, [fpath], wd, 'ra')
+            log('  public API: ' + outs[0][0][:400])
+            if schema:
+                s, _ = parse_schema(schema.split())
+                s['unlim'] = next((i for i, d in enumerate(s['dims']) if d['size'] == 0), -1)
+                recs = [v for v in s['vars'] if is_rec(s, v)]
+                s['has_rec'] = bool(recs)
+                s['recsize'] = sum(var_len(s, v) for v in recs) if len(recs) != 1 else nelems(s, recs[0]) * TSIZE[recs[0]['type']]
+                s['xsz'] = int(lean_batch(drv, ['ENC ' + schema])[0].split()[1])
+                why = api_mismatch(outs[0][0], s, data)
+                log('  property oracle (public API): ' + (why or 'read back exactly'))
+                bad += 1 if why else 0
+        return 1 if bad else 0
+    finally:
+        cleanup(wd)
+
+
 if __name__ == '__main__':
     tier, seed, replay = args(sys.argv[1:])
+    if replay:
+        sys.exit(replay_file(replay))
     sys.exit(run_check(tier, seed))
